@@ -48,6 +48,23 @@ def ends_with_separator(f, e: ast.expr) -> bool:
     return False
 
 
+def namespace_created_only_if_absent(chk: Check, rule: str) -> None:
+    prog = chk.prog
+    # create_port_namespace: "the (sub) namespace does not exist yet" is a question of MEMBERSHIP.  A port namespace is a container -- an existing one that holds no
+    # ports yet is falsy -- so a truthiness test on the looked-up object replaces it (with its properties and whatever was exposed into it before)
+    cpn = prog.func('ports.PortNamespace.create_port_namespace')
+    fcp = chk.ctx.facts.analyse(cpn)
+    st_ = [m for m in fcp.cfg.nodes if m.kind == 'stmt' and isinstance(m.ast, ast.Assign) and isinstance(m.ast.targets[0], ast.Subscript) and norm(m.ast.targets[0].value) in ('self', 'self._ports')]
+    chk.floor('PROV-namespace-options:create-stores', len(st_), 1)
+    for m in st_:
+        key_ = norm(m.ast.targets[0].slice)
+        absent = any(a[0] == 'F' and a[1] in (f'{key_} in self', f'{key_} in self._ports', f'{key_} in self.ports') for a in fcp.at(m)) or any(
+            a[0] == 'none' and any(isinstance(x, (ast.Assign,)) and norm(x.targets[0]) == a[1] and isinstance(x.value, ast.Call) and norm(x.value.func) in ('self._ports.get', 'self.ports.get', 'self.get')
+                                   and len(x.value.args) == 1 for x in ast.walk(cpn.node)) for a in fcp.at(m))
+        chk.ob(rule, cpn, absent, f'a namespace is created under {key_!r} only where nothing is stored under that name (membership / "is None" of a lookup -- not the truth value '
+               'of the object found: an existing but still empty namespace is falsy and would be replaced)', node=m.ast, kind='create-only-if-absent')
+
+
 def run(chk: Check) -> None:
     prog = chk.prog
     ab = prog.func('ports.PortNamespace.absorb')
@@ -150,19 +167,10 @@ def run(chk: Check) -> None:
         chk.ob('PROV-namespace-options', pn_.qualname, p_ in setters_, f'the namespace option {p_!r} is a property with a setter' + ('' if p_ in setters_ else
                ': absorb() copies only what is_mutable_property() finds, so an exposed namespace no longer takes this option from its source, and namespace_options={' + repr(p_) + ': ...} is rejected'),
                kind=f'option-is-mutable-property:{p_}', expr=p_)
-    # create_port_namespace: "the (sub) namespace does not exist yet" is a question of MEMBERSHIP.  A port namespace is a container -- an existing one that holds no
-    # ports yet is falsy -- so a truthiness test on the looked-up object replaces it (with its properties and whatever was exposed into it before)
-    cpn = prog.func('ports.PortNamespace.create_port_namespace')
-    fcp = chk.ctx.facts.analyse(cpn)
-    st_ = [m for m in fcp.cfg.nodes if m.kind == 'stmt' and isinstance(m.ast, ast.Assign) and isinstance(m.ast.targets[0], ast.Subscript) and norm(m.ast.targets[0].value) in ('self', 'self._ports')]
-    chk.floor('PROV-namespace-options:create-stores', len(st_), 1)
-    for m in st_:
-        key_ = norm(m.ast.targets[0].slice)
-        absent = any(a[0] == 'F' and a[1] in (f'{key_} in self', f'{key_} in self._ports', f'{key_} in self.ports') for a in fcp.at(m)) or any(
-            a[0] == 'none' and any(isinstance(x, (ast.Assign,)) and norm(x.targets[0]) == a[1] and isinstance(x.value, ast.Call) and norm(x.value.func) in ('self._ports.get', 'self.ports.get', 'self.get')
-                                   and len(x.value.args) == 1 for x in ast.walk(cpn.node)) for a in fcp.at(m))
-        chk.ob('PROV-namespace-options', cpn, absent, f'a namespace is created under {key_!r} only where nothing is stored under that name (membership / "is None" of a lookup -- not the truth value '
-               'of the object found: an existing but still empty namespace is falsy and would be replaced)', node=m.ast, kind='create-only-if-absent')
+    # exposed ports are deep copies of the source's: what a copied port compares by identity (the "no default" marker) must be the same object in the copy
+    from .common import sentinels_are_unique_objects
+    sentinels_are_unique_objects(chk, 'PROV-copies-only', parts=('copy',))
+    namespace_created_only_if_absent(chk, 'PROV-namespace-options')
     # "with the source namespace's properties": absorb copies the mutable properties one by one through their setters; a setter that also writes ANOTHER
     # copied property makes the outcome depend on the order of the copy (alphabetical, from dir()): valid_type's setter switches dynamic on
     pn = prog.cls('ports.PortNamespace')
